@@ -330,6 +330,11 @@ def c05(ctx):
     slow += [{"mode": "free", "W": w, "N": n, "seed": 5, "slow": 0.0, "slow_item": k, "slow_ms": 250}
              for w in ((2, 3, 4) if q else (1, 2, 3, 4, 6)) for n in ((2, 4, 5) if q else (1, 2, 3, 4, 5, 7)) for k in range(n)]
     pipe_judge(ctx, slow, "B-slow-item", C05_CLAUSES)
+    # several pipes alive at once in one process (side by side / one feeding the other): each is a sequential map on its own
+    multi = [{"mode": "multi", "W": w, "N": n, "pipes": k, "nested": nested, "seed": 40 + w}
+             for w in ((1, 3) if q else (1, 2, 3, 4)) for n in ((7,) if q else (1, 7, 30)) for k in ((2,) if q else (2, 3))
+             for nested in (False, True)]
+    pipe_judge(ctx, multi, "B-multi", C05_CLAUSES, mech=False)
 
 
 def buffered_cfg(N, cap, drain="FALSE", props="StopsAfterDrop"):
@@ -516,8 +521,9 @@ def c09(ctx):
     # (W, N, fail, delay before the panic in ms, prior): the failing item is still being processed while other workers
     # already found the upstream exhausted (last items, fewer items than workers), or an earlier pipe of the same process has
     # run to completion (prior = 1): the hook must still end the process
-    combos += [(4, 2, 0, 60, 0), (3, 6, 4, 60, 0), (4, 9, 7, 60, 0), (2, 6, 3, 0, 1), (4, 3, 1, 40, 1)] if q else \
-        [(w, n, f, d, pr) for w in (2, 3, 4, 8) for n in (2, 5, 9) for f in (0, n - 2, n - 1) for d in (0, 60) for pr in (0, 1)]
+    # prior = 2: between the earlier pipe and this one train_bpe has installed its own panic hook
+    combos += [(4, 2, 0, 60, 0), (3, 6, 4, 60, 0), (4, 9, 7, 60, 0), (2, 6, 3, 0, 1), (4, 3, 1, 40, 1), (2, 6, 3, 0, 2), (1, 4, 1, 0, 2)] if q else \
+        [(w, n, f, d, pr) for w in (1, 2, 3, 4, 8) for n in (2, 5, 9) for f in (0, n - 2, n - 1) for d in (0, 60) for pr in (0, 1, 2)]
     child_panic_runs(ctx, combos)
 
 
